@@ -1,6 +1,7 @@
 import LolHtml.Thm.C02_Removal
 import LolHtml.Thm.C02_Final
 import LolHtml.Lemmas.ChunkResume
+import LolHtml.Lemmas.ChunkFullPanic
 /-!
 # C02 / C09 with content removal, capstone: `ResumeAtEndTag` discharged
 
@@ -12,8 +13,16 @@ returns a panic-class error itself (`CtlClean`). With `C15_no_panic_full` for th
 what remains of the hypotheses of C02 / C09 is "no memory-limit error" (chunk-dependent by nature).
 
 The real controller `fullCtl` is NOT `CtlClean` (`Full_not_ctlClean`: its callbacks report the panic sites
-of `selectors_vm` / `handlers_dispatcher` as panic-class errors, in states no run reaches); for it
-`C02_real` / `C09_real` keep the hypotheses `Clean` and `ResumeAtEndTag` (decidable on concrete runs).
+of `selectors_vm` / `handlers_dispatcher` as panic-class errors, in states no run reaches), and "no callback
+returns `.panic guardSite`" is false of it in ALL states too (the recorded `fault` is an arbitrary string in
+states no run reaches). `C02_resumeAtEndTag_all` (Lemmas/ChunkResumeAll.lean) needs only `PanicLaws ctl D`: a
+callback-closed set `D` of states on which no callback returns `.panic guardSite`. Until a call fails and
+poisons the rewriter, the run of `ctl` is the run of `cleanCtl ctl` (panic- and internal-class errors of the
+callbacks replaced by the handler error), which is `CtlClean`; "the guard never fires" and the watermark bound
+are transported along that simulation (Lemmas/ParseRelE.lean, Lemmas/CtlSim.lean). The real controller has
+`PanicLaws` (`fullCtl_panicLaws`: its panic-class errors carry its own site strings or the recorded fault, and
+`handle_end_tag` records only its own sites), hence **`C02_real_final` / `C09_real_final`**: no
+`ResumeAtEndTag` hypothesis left.
 -/
 namespace LolHtml.Thm.C02
 open LolHtml LolHtml.Model LolHtml.Model.Chunk LolHtml.Model.Chunk.R
@@ -29,6 +38,16 @@ theorem C02_resumeAtEndTag (w : World γ) (L : Labels) (TT : TLabels) (P : PLabe
     ResumeAtEndTag w g cfg cs := by
   unfold ResumeAtEndTag
   rw [runG_eq hside ht hwf hc hl g cfg cs, writeAllG_eq hside ht hwf hc hl g cfg cs]
+  exact ⟨rfl, rfl, rfl, rfl⟩
+
+/-- **`ResumeAtEndTag` is a theorem for every controller with `PanicLaws`** (no `CtlClean`): the checked
+rewriter IS the real one on every chunking, whatever the calls return. -/
+theorem C02_resumeAtEndTag_all (w : World γ) (L : Labels) (TT : TLabels) (P : PLabels) (S : SLabels) (D : γ → Prop)
+    (hwf : WfTable w.tbl = true) (hside : RelexSide w.tbl L TT P S) (ht : EmitsChecked w.tbl = true)
+    (hl : ResumeLaws w.ctl) (hpl : PanicLaws w.ctl D) (g : γ) (hg : D g) (cfg : Settings) (cs : List Bytes) :
+    ResumeAtEndTag w g cfg cs := by
+  unfold ResumeAtEndTag
+  rw [runG_eq' hside ht hwf hl hpl g hg cfg cs, writeAllG_eq' hside ht hwf hl hpl g hg cfg cs]
   exact ⟨rfl, rfl, rfl, rfl⟩
 
 /-- **C02 with removal, final form.** Two chunkings of the same document, any controller of the class
@@ -80,6 +99,67 @@ theorem C09_schedule_independent_removal_final (w : World γ) (L : Labels) (TT :
   have := C15.C15_no_panic_full w L TT P S hwf hcert hside hc g cfg [cs.flatten] _ hmem
   rw [hs] at this
   exact this
+
+/-! ## The real `HtmlRewriteController`, final form -/
+
+section real
+open LolHtml.Model.Full LolHtml.Thm.Full
+
+/-- the assertions of the checked rewriter never fire for the real controller, on any chunking, with any
+handlers (also text handlers) -/
+theorem C02_resumeAtEndTag_real (hc : Cfg) (settings : Settings) (cs : List Bytes) :
+    ResumeAtEndTag (genWorld hc) (FullSt.init hc) settings cs :=
+  C02_resumeAtEndTag_all (genWorld hc) _ _ _ _ (FullD hc) C15.C15_gen C15.C15_relexSide_gen
+    (show EmitsChecked Gen.Syntax.table = true by decide +kernel)
+    (fullCtl_textBlindR hc).resumeLaws (fullCtl_panicLaws hc) (FullSt.init hc) (init_fullD hc) settings cs
+
+/-- **C02_real_final.** The whole rewriter model — tokenizer tables regenerated from /repo, the real
+`HtmlRewriteController` — for every configuration without text handlers (arbitrary selectors; element,
+comment, doctype, end-tag and document-end handlers with arbitrary mutating / removing / failing scripts):
+any two chunkings of a document give the same outcome and on success the same OUTPUT, provided no call of the
+two runs and of the single-write run returns a panic-class or memory-limit error. -/
+theorem C02_real_final (hc : Cfg) (hnt : noText hc = true) (settings : Settings) (cs₁ cs₂ : List Bytes)
+    (h1 : cs₁ ≠ []) (h2 : cs₂ ≠ []) (hflat : cs₁.flatten = cs₂.flatten)
+    (hc1 : Clean (C01.run (genWorld hc) (C01.Rewriter.new (genWorld hc) (FullSt.init hc) settings) cs₁).2)
+    (hc2 : Clean (C01.run (genWorld hc) (C01.Rewriter.new (genWorld hc) (FullSt.init hc) settings) cs₂).2)
+    (hcW : Clean (C01.run (genWorld hc) (C01.Rewriter.new (genWorld hc) (FullSt.init hc) settings) [cs₁.flatten]).2) :
+    outcome (C01.run (genWorld hc) (C01.Rewriter.new (genWorld hc) (FullSt.init hc) settings) cs₁).2 =
+      outcome (C01.run (genWorld hc) (C01.Rewriter.new (genWorld hc) (FullSt.init hc) settings) cs₂).2 ∧
+    (outcome (C01.run (genWorld hc) (C01.Rewriter.new (genWorld hc) (FullSt.init hc) settings) cs₁).2 = .ok →
+      sinkBytes (C01.run (genWorld hc) (C01.Rewriter.new (genWorld hc) (FullSt.init hc) settings) cs₁).1.sink =
+        sinkBytes (C01.run (genWorld hc) (C01.Rewriter.new (genWorld hc) (FullSt.init hc) settings) cs₂).1.sink) :=
+  C02_real hc hnt settings cs₁ cs₂ h1 h2 hflat hc1 hc2 hcW (C02_resumeAtEndTag_real hc settings cs₁)
+    (C02_resumeAtEndTag_real hc settings cs₂) (C02_resumeAtEndTag_real hc settings [cs₁.flatten])
+
+/-- **C09_real_final.** After any successful writes the sink has exactly the bytes a fresh rewriter given the
+concatenation in ONE write has emitted, and that write succeeds, provided it returns no panic-class or
+memory-limit error. -/
+theorem C09_real_final (hc : Cfg) (hnt : noText hc = true) (settings : Settings) (cs : List Bytes) (hne : cs ≠ [])
+    (hall : ∀ r ∈ (C01.writeAll (genWorld hc) (C01.Rewriter.new (genWorld hc) (FullSt.init hc) settings) cs).2, r = .ok)
+    (hcW : Clean [((C01.Rewriter.new (genWorld hc) (FullSt.init hc) settings).write (genWorld hc) cs.flatten).2]) :
+    ((C01.Rewriter.new (genWorld hc) (FullSt.init hc) settings).write (genWorld hc) cs.flatten).2 = .ok ∧
+    sinkBytes (C01.writeAll (genWorld hc) (C01.Rewriter.new (genWorld hc) (FullSt.init hc) settings) cs).1.sink =
+      sinkBytes ((C01.Rewriter.new (genWorld hc) (FullSt.init hc) settings).write (genWorld hc) cs.flatten).1.sink :=
+  C09_real hc hnt settings cs hne hall hcW (C02_resumeAtEndTag_real hc settings cs)
+    (C02_resumeAtEndTag_real hc settings [cs.flatten])
+
+/-- non-vacuity: the hypotheses of `C02_real_final` hold for `el.remove()` on the three chunkings of
+`<div a=b>x</div>y` (`Clean`: all calls succeed), so its conclusion — proved, not evaluated — is that the
+outputs agree; evaluated, each is `y` (examples in `Thm/C02_Removal.lean`) -/
+example : sinkBytes (C01.run (genWorld mutCfg) (C01.Rewriter.new (genWorld mutCfg) (FullSt.init mutCfg) {}) rch2).1.sink =
+    sinkBytes (C01.run (genWorld mutCfg) (C01.Rewriter.new (genWorld mutCfg) (FullSt.init mutCfg) {}) rch3).1.sink :=
+  (C02_real_final mutCfg (by decide) {} rch2 rch3 (by decide) (by decide) (by decide)
+    (clean_of_all_ok (by decide +kernel)) (clean_of_all_ok (by decide +kernel)) (clean_of_all_ok (by decide +kernel))).2
+    (by decide +kernel)
+
+/-- the same for `set_attribute` + `after` on `[a]` -/
+example : sinkBytes (C01.run (genWorld auxCfg) (C01.Rewriter.new (genWorld auxCfg) (FullSt.init auxCfg) {}) rch2).1.sink =
+    sinkBytes (C01.run (genWorld auxCfg) (C01.Rewriter.new (genWorld auxCfg) (FullSt.init auxCfg) {}) rch3).1.sink :=
+  (C02_real_final auxCfg (by decide) {} rch2 rch3 (by decide) (by decide) (by decide)
+    (clean_of_all_ok (by decide +kernel)) (clean_of_all_ok (by decide +kernel)) (clean_of_all_ok (by decide +kernel))).2
+    (by decide +kernel)
+
+end real
 
 /-! ## Non-vacuity: a clean controller that removes content
 
